@@ -432,3 +432,15 @@ func init() {
 	mutant("huff-descent-nine-bits", "huffman-tree-build", "huffman.go", "	for length > 8 {\n		length -= 8", "	for length > 8 {\n		length -= 9")
 	mutant("huff-fill-start-unaligned", "huffman-tree-build", "huffman.go", "	start, end := int(uint8(code<<n)), 1<<n", "	start, end := int(uint8(code)), 1<<n")
 }
+
+func init() {
+	mutant("end-stream-sent-twice", "send-loop-shape", "serverConn.go", "		if end {\n			// END_STREAM has gone out on this frame. Asking the body for more\n			// would read (0, io.EOF) and close the stream a second time.\n			break\n		}\n", "")
+	mutant("last-frame-not-debited", "send-loop-shape", "serverConn.go", "		sc.write(fr)\n\n		strm.window -= step\n		sc.clientWindow -= step\n\n		if end {", "		sc.write(fr)\n\n		if end {\n			break\n		}\n\n		strm.window -= step\n		sc.clientWindow -= step\n\n		if end {")
+	mutant("end-stream-while-data-left", "send-loop-shape", "serverConn.go", "		end := strm.pendingEnd && len(strm.pendingData) == 0", "		end := strm.pendingEnd && len(strm.pendingData) <= 1")
+}
+
+func init() {
+	mutant("phantom-field-server", "no-phantom-field", "serverConn.go", "		if len(b) == 0 && hf.Empty() {\n			// The fragment ended in a dynamic table size update, which\n			// consumes input without producing a field: there is nothing to\n			// validate or to hand to the request yet.\n			break\n		}\n", "")
+	mutant("phantom-guard-drops-last-field", "no-phantom-field", "serverConn.go", "		if len(b) == 0 && hf.Empty() {\n			// The fragment ended in a dynamic table size update, which\n			// consumes input without producing a field: there", "		if len(b) == 0 || hf.Empty() {\n			// The fragment ended in a dynamic table size update, which\n			// consumes input without producing a field: there")
+	mutant("phantom-field-client", "no-phantom-field", "conn.go", "		if len(b) == 0 && hf.Empty() {\n			// The fragment ended in a dynamic table size update, which\n			// consumes input without producing a field.\n			break\n		}\n", "")
+}
